@@ -23,7 +23,9 @@ class Ctx:
 
     def auto(self, config="Q"):
         if config not in self._auto:
-            self._auto[config] = e1_auto.Auto(self.prog(config))
+            a = e1_auto.Auto(self.prog(config))
+            a.infer_params(self.e1(config).cg)
+            self._auto[config] = a
         return self._auto[config]
 
 
